@@ -477,7 +477,31 @@ def extract_persist(E):
     E.t.append("/-- `PersistHelper.persist` skips storing exactly when the digest equals the digest of the last stored state of the same key -/\ndef persistSkipsOnLastEqual : Bool := %s" % str(last_eq).lower())
 
 
-EXTRACTORS = [extract_cost, extract_scheduler, extract_api_phases, extract_isolation, extract_persist]
+def extract_lookahead(E):
+    """what the opening-auction bar carries (C07): BaseDataSource.OPEN_AUCTION_BAR_FIELDS"""
+    tree, src = parse("rqalpha/data/base_data_source/data_source.py")
+    fields = None
+    for n in ast.walk(tree):
+        if isinstance(n, ast.Assign) and isinstance(n.targets[0], ast.Name) and n.targets[0].id == "OPEN_AUCTION_BAR_FIELDS" and isinstance(n.value, (ast.List, ast.Tuple)):
+            fields = [e.value for e in n.value.elts if isinstance(e, ast.Constant)]
+    E.t.append("/-- `BaseDataSource.OPEN_AUCTION_BAR_FIELDS`: the fields of the day bar copied into the bar a strategy sees in open_auction -/\ndef openAuctionBarFields : Option (List String) := %s"
+               % ("none" if fields is None else "some " + lean_strlist(fields)))
+    # the history API: phases in which the window is forced to end at the previous trading day
+    tree, src = parse("rqalpha/apis/api_base.py")
+    f = find_func(tree, "history_bars")
+    phases = []
+    if f is not None:
+        for n in ast.walk(f):
+            if isinstance(n, ast.Compare) and len(n.ops) == 1 and isinstance(n.ops[0], (ast.In, ast.Eq)) and "ExecutionContext.phase()" in (ast.get_source_segment(src, n.left) or ""):
+                for a in ast.walk(n.comparators[0]):
+                    if isinstance(a, ast.Attribute) and isinstance(a.value, ast.Name) and a.value.id == "EXECUTION_PHASE":
+                        phases.append(a.attr)
+        E.fp["api.history_bars"] = fingerprint(f)
+    E.t.append("/-- phases in which the `history_bars` API ends a daily window at the previous trading day (compared with `in`/`==` against ExecutionContext.phase()) -/\n"
+               "def historyPrevDayPhases : List String := %s" % lean_strlist(sorted(set(p for p in phases if p != "AFTER_TRADING"))))
+
+
+EXTRACTORS = [extract_cost, extract_scheduler, extract_api_phases, extract_isolation, extract_persist, extract_lookahead]
 
 
 def write_if_changed(path, text):
